@@ -14,19 +14,20 @@ EXHAUSTIVE = True
 BUDGET = {"quick": 1, "thorough": 1}
 SOFT = {"quick": 80, "thorough": 560}
 MAX_WORKERS = 16
-RULE = ("bounded-exhaustive enumeration of augmented matrices with entries in {-2..2}: shapes 1x3, 1x4, 2x3 (quick) plus 2x4, "
-        "3x3 and 3x4 over {-1,0,1} (thorough), every matrix with Fraction entries and additionally int / float entries on a "
-        "third of them, plus sampled 3x4 over {-2..2}; reference = exact rational rank of A and [A|b]; each consistent system "
+RULE = ("bounded-exhaustive enumeration of augmented matrices: quick = 1x3, 1x4, 2x3 over {-2..2} and 2x4, 3x3 over {-1,0,1}; "
+        "thorough = 1x3, 1x4, 2x3, 2x4, 3x3 over {-2..2} and 3x4 over {-1,0,1}; every matrix with Fraction entries and "
+        "additionally int / float entries on a third of them, plus sampled 3x4 over {-2..2} (half with forced zero columns); reference = exact rational rank of A and [A|b]; each consistent system "
         "is called with three free-parameter tuples and every original equation is re-evaluated; non-trivial = every matrix "
         "except the all-zero one; distinct by (matrix, entry type)")
-SHAPES_Q = [(1, 3, 2), (1, 4, 2), (2, 3, 2)]
-SHAPES_T = SHAPES_Q + [(2, 4, 2), (3, 3, 2), (3, 4, 1)]
+SHAPES_Q = [(1, 3, 2), (1, 4, 2), (2, 3, 2), (2, 4, 1), (3, 3, 1)]
+SHAPES_T = [(1, 3, 2), (1, 4, 2), (2, 3, 2), (2, 4, 2), (3, 3, 2), (3, 4, 1)]
 REQUIRED_FUNCS = ("solve", "gaussian_elimination", "find_pivot_row", "Solution.__call__", "Solution.__bool__")
 VALUESETS = [(F(0), F(0), F(0)), (F(1), F(-2), F(3)), (F(-1, 2), F(5, 3), F(7))]
 
 
 def required_cells(tier):
     req = {}
+    req["shape:3x4/consistent"] = 100
     for r, c, _ in (SHAPES_Q if tier == "quick" else SHAPES_T):
         for st in ("consistent", "inconsistent"):
             req["shape:%dx%d/%s" % (r, c, st)] = 2
@@ -49,9 +50,14 @@ def cases(rng, budget, widx, nworkers, tier):
             yield {"m": [list(flat[i * c:(i + 1) * c]) for i in range(r)], "t": "Fraction"}
             if idx % 3 == 0:
                 yield {"m": [list(flat[i * c:(i + 1) * c]) for i in range(r)], "t": ("int", "float")[(idx // 3) % 2]}
-    if tier == "thorough":
-        for _ in range(20000):
-            yield {"m": [[rng.randint(-2, 2) for _ in range(4)] for _ in range(3)], "t": rng.choice(("Fraction", "int", "float")), "sampled": True}
+    # sampled 3x4 systems, half of them with zero columns forced (where pivots have to skip columns)
+    for _ in range((20000 if tier == "thorough" else 12000) // nworkers):
+        m = [[rng.randint(-2, 2) for _ in range(4)] for _ in range(3)]
+        if rng.random() < 0.5:
+            for c in rng.sample(range(3), rng.randint(1, 2)):
+                for row in m:
+                    row[c] = 0
+        yield {"m": m, "t": rng.choice(("Fraction", "int", "float")), "sampled": True}
 
 
 def _conv(m, t):
